@@ -5,6 +5,7 @@ open Zutil
 open Machine
 open Merge
 open ArrayShift
+open MapModel
 
 let cat_of = function "NTM" -> NTM | "SMH" -> SMH | "THM" -> THM | _ -> CPY
 let movable c = nothrow_reloc c
@@ -42,7 +43,7 @@ let world_for kind j =
 (* behaviours for j = 0,1,2,... until the failure no longer fires; consecutive duplicates removed *)
 let enumerate kind (body : world -> string * bool) =
   let rec go j acc =
-    if j >= 400 then ["TOO-MANY-FAILURE-POINTS"] else
+    if j >= 5000 then ["TOO-MANY-FAILURE-POINTS"] else
     let (b, f) = body (world_for kind j) in
     let acc = match acc with x :: _ when x = b -> acc | _ -> b :: acc in
     if f then go (j + 1) acc else Stdlib.List.rev acc in
@@ -94,6 +95,14 @@ let () = iter_lines (fun line ->
       let b = Printf.sprintf "%s src=%s dst=%s" (stat_str st w') (join_sorted s) (join_sorted d) in
       let b = if movable c then b ^ " copies=" ^ copies w' else b in
       (b, fired w'))
+  | ["fm"; c; kind; multi; dst; src] ->
+    let c = cat_of c in
+    let src = key_sorted (zs src) and dst = key_sorted (zs dst) in
+    enumerate kind (fun w ->
+      let (((st, s), d), w') = FastMerge.tree_merge_to_eq c (multi = "1") src dst w [] (nat_of_int 3) false in
+      let b = Printf.sprintf "%s src=%s dst=%s" (stat_str st w') (join_sorted s) (join (key_sorted d)) in
+      let b = if movable c then b ^ " copies=" ^ copies w' else b in
+      (b, fired w'))
   | ["xi"; c; kind; idx; dst; b0] ->
     let c = cat_of c in
     let b0 = zs b0 and dst = zs dst and idx = nat_of_int (int_of_string idx) in
@@ -123,5 +132,44 @@ let () = iter_lines (fun line ->
       let st = (match o with AOk -> "S" | AExn -> "Ec" | AStuck -> "STUCK") in
       let items = if live = [] then "-" else String.concat "," (Stdlib.List.map (function Raw -> "raw" | Obj v -> string_of_z v) live) in
       (Printf.sprintf "%s count=%d items=%s %s" st cntv items (trace_str w'.tr []), fired w'))
+  | ["pm"; kc; vc; op; k; ks; vs; km; vm] ->
+    let kc = cat_of kc and vc = cat_of vc and k = int_of_string k in
+    let src = (z_of_string ks, z_of_string vs) and mid = (z_of_string km, z_of_string vm) in
+    let w = if k < 0 then { sf = []; sa = []; sc = []; tr = [] } else world_for "copy" k in
+    let showp = function None -> "raw:raw" | Some (a, b) -> string_of_z a ^ ":" ^ string_of_z b in
+    let (st, s, m, d, w') =
+      (match op with
+       | "reloc" -> (match p_relocate kc vc w src with
+                     | (w', Some e) -> ("S", None, None, Some e, w')
+                     | (w', None) -> ("E", Some src, None, None, w'))
+       | "replace" -> (match p_replace kc vc w src mid with
+                       | ((w', Some d), _) -> ("S", None, Some d, None, w')
+                       | ((w', None), m') -> ("E", Some src, Some m', None, w'))
+       | _ -> (match p_replace_relocate kc vc w src mid with
+               | (w', POk (e, m')) -> ("S", None, Some m', Some e, w')
+               | (w', PFail (s', m')) -> ("E", Some s', Some m', None, w'))) in
+    Printf.sprintf "%s src=%s mid=%s dst=%s %s" st (showp s) (showp m) (showp d) (trace_str w'.tr [])
+  | ["px"; kc; vc; kind; idx; dst; b0] ->
+    let kc = cat_of kc and vc = cat_of vc in
+    let pairs s = if s = "-" then [] else Stdlib.List.map (fun t ->
+        match String.split_on_char ':' t with [a; b] -> (z_of_string a, z_of_string b) | _ -> failwith "pair")
+        (Stdlib.List.filter (fun x -> x <> "") (String.split_on_char ',' s)) in
+    let showl l sorted =
+      let l = if sorted then Stdlib.List.sort (fun (a, b) (c, d) -> compare (zi a, zi b) (zi c, zi d)) l else l in
+      if l = [] then "-" else String.concat "," (Stdlib.List.map (fun (a, b) -> string_of_z a ^ ":" ^ string_of_z b) l) in
+    let b0 = pairs b0 and dst = pairs dst and idx = nat_of_int (int_of_string idx) in
+    enumerate kind (fun w ->
+      let (((w1, b'), h), ok) = pextract_at kc vc w b0 idx in
+      let show = function None -> "none" | Some (a, b) -> string_of_z a ^ ":" ^ string_of_z b in
+      if not ok then
+        (Printf.sprintf "%s ? src=%s dst=%s holder=none %s" (fail_status w1) (showl b' false) (showl dst true) (trace_str w1.tr []), fired w1)
+      else
+        let (((w2, d'), h'), st) = pinsert_holder kc vc w1 dst h in
+        let w3 = pholder_clear { w2 with tr = [] } h' in
+        let ins = (match st with Failed -> "?" | _ -> if h' = None then "ins" else "dup") in
+        let t = trace_str w2.tr [] in
+        let t2 = if w3.tr = [] then "H" else "H;" ^ trace_str w3.tr [] in
+        let t = if t = "-" then t2 else t ^ ";" ^ t2 in
+        (Printf.sprintf "%s %s src=%s dst=%s holder=%s %s" (stat_str st w2) ins (showl b' false) (showl d' true) (show h') t, fired w2))
   | _ -> "?" in
   print_endline out)
